@@ -130,6 +130,9 @@ func main() {
 	}
 	for rel, exprs := range cfg.MapRange {
 		src := load(rel)
+		if prev, ok := content[rel]; ok {
+			src = prev // already rewritten for concurrency: chain
+		}
 		res, err := rewriteMapRange(rel, src, exprs)
 		if err != nil {
 			fatal(2, "%s: %v", rel, err)
@@ -269,8 +272,14 @@ func rewriteMapRange(name string, src []byte, exprs []string) ([]byte, error) {
 	if err != nil {
 		return nil, err
 	}
+	// an expression prefixed "any:" has a non-ordered key type and goes through vorder.KeysAny
 	want := map[string]bool{}
+	anyKey := map[string]bool{}
 	for _, e := range exprs {
+		if strings.HasPrefix(e, "any:") {
+			e = strings.TrimPrefix(e, "any:")
+			anyKey[e] = true
+		}
 		want[e] = true
 	}
 	found := map[string]int{}
@@ -310,7 +319,7 @@ func rewriteMapRange(name string, src []byte, exprs []string) ([]byte, error) {
 		}
 		c.Replace(&ast.RangeStmt{
 			Key: ast.NewIdent("_"), Value: keyIdent, Tok: tok,
-			X: &ast.CallExpr{Fun: sel("vorder", "Keys"), Args: []ast.Expr{
+			X: &ast.CallExpr{Fun: sel("vorder", map[bool]string{false: "Keys", true: "KeysAny"}[anyKey[et]]), Args: []ast.Expr{
 				rs.X, &ast.BasicLit{Kind: token.STRING, Value: strconv.Quote(site)},
 			}},
 			Body: body,
